@@ -410,7 +410,9 @@ def main():
           bc, bl = boundary_cases()
           fc, fl = fc + bc, fl + bl
           res0 = new_out()
-          evaluate(o, fc, fl, [True] * len(fc), res0)
+          # the deterministic streams (separator configurations, single characters, range boundaries: all four
+          # entry points) run in-process under coverage.py restricted to isoparser.py
+          _, cov_summary = I.measure_anchor_coverage(lambda: evaluate(o, fc, fl, [True] * len(fc), res0))
           o.close()
           q = tier == "quick"
           if q:
@@ -421,8 +423,7 @@ def main():
               nproc = 12
               ejobs = [("t-iso%d" % i, 0, 40, 300) for i in range(36)] + \
                       [("t-aux%d-%d" % (e, i), e, 60, 300) for e in (1, 2, 3) for i in range(8)]
-          first, cov_summary = I.measure_anchor_coverage(lambda: job_edits(("cov", 0, 2, 20)))
-          results = [res0, first] + I.run_pool(job_edits, ejobs, nproc) + I.run_pool(job_short, short_jobs(tier), nproc)
+          results = [res0] + I.run_pool(job_edits, ejobs, nproc) + I.run_pool(job_short, short_jobs(tier), nproc)
           for res in results:
               for k in ("evals", "model_diff", "spec_diff", "misread", "bad_exc", "rejects_valid", "accepted"):
                   tot[k] += res[k]
@@ -481,7 +482,7 @@ def main():
         "recogniser_vs_impl_disagreements": tot["spec_diff"],
         "well_formed_but_rejected_by_impl": tot["rejects_valid"],
         "regression_corpus_cases": n_reg,
-        "anchor_coverage_of_one_shard": cov_summary,
+        "anchor_coverage_of_deterministic_streams": cov_summary,
         "partial_theorems": partial,
         "only_differential_tested": ["str / bytes / stream glue of _takes_ascii (identity in the model)",
                                      "TypeError for non-text, non-bytes inputs is outside the property"],
